@@ -794,7 +794,7 @@ fn generate(seed: u64, tier: Tier, em: &mut Emitter) {
     // sampled error band (statistical claim; sampled, not proved)
     let kstat: Vec<(usize, u64, u64)> = if thorough {
         vec![(64, 10_000, 4), (256, 10_000, 1), (1024, 10_000, 8), (256, 100_000, 16), (1024, 100_000, 4),
-             (4096, 100_000, 2)]
+             (4096, 30_000, 2)]
     } else {
         vec![(64, 3000, 4), (256, 10_000, 3), (1024, 10_000, 8)]
     };
